@@ -1,7 +1,7 @@
 """Minimal TrueType builder and parser (generation and harness-side reading only).
 
 build_font(glyphs, cmap, ...) -> bytes
-  glyphs: list of dicts {name, adv, lsb?, contours: [[(x,y,on), ...], ...]} or {'components': [(gid, dx, dy)]}
+  glyphs: list of dicts {name, adv, lsb?, contours: [[(x,y,on), ...], ...]} or {'components': [(gid, dx, dy) | (gid, dx, dy, sx, sy)]} (scales in F2Dot14 units)
   cmap:   dict codepoint -> gid
 """
 import struct
@@ -34,11 +34,20 @@ def glyph_bytes(g):
         out = b""
         xs = g.get("bbox", (0, 0, 0, 0))
         out += struct.pack(">hhhhh", -1, *xs)
-        for i, (gid, dx, dy) in enumerate(comps):
+        for i, comp in enumerate(comps):
+            gid, dx, dy = comp[:3]
             flags = 0x0001 | 0x0002  # ARGS_ARE_WORDS, ARGS_ARE_XY
             if i < len(comps) - 1:
                 flags |= 0x0020
-            out += struct.pack(">HHhh", flags, gid, dx, dy)
+            tail = b""
+            if len(comp) == 5:      # (gid, dx, dy, sx, sy): scales in F2Dot14 units
+                if comp[3] == comp[4]:
+                    flags |= 0x0008  # WE_HAVE_A_SCALE
+                    tail = struct.pack(">h", comp[3])
+                else:
+                    flags |= 0x0040  # WE_HAVE_AN_X_AND_Y_SCALE
+                    tail = struct.pack(">hh", comp[3], comp[4])
+            out += struct.pack(">HHhh", flags, gid, dx, dy) + tail
         return out
     contours = g.get("contours") or []
     if not contours:
@@ -67,10 +76,17 @@ def glyph_bytes(g):
 def glyph_bbox(g, glyphs):
     if "components" in g:
         bb = None
-        for (gid, dx, dy) in g["components"]:
+        for comp in g["components"]:
+            gid, dx, dy = comp[:3]
             b = glyph_bbox(glyphs[gid], glyphs)
             if b is None:
                 continue
+            if len(comp) == 5:
+                def sc(v, k):       # truncation toward zero, as the usual rasteriser-free readers do
+                    return int(v * k / 16384.0)
+                xs = sorted((sc(b[0], comp[3]), sc(b[2], comp[3])))
+                ys = sorted((sc(b[1], comp[4]), sc(b[3], comp[4])))
+                b = (xs[0], ys[0], xs[1], ys[1])
             b = (b[0] + dx, b[1] + dy, b[2] + dx, b[3] + dy)
             bb = b if bb is None else (min(bb[0], b[0]), min(bb[1], b[1]), max(bb[2], b[2]), max(bb[3], b[3]))
         return bb
